@@ -666,8 +666,8 @@ class NodeDerefInvoke:
             return invoke(fn, names, args, environment, self.pos)
 
         if obj_.isMap():
-            fn = obj_.value[ValueString(self.member)]
-            if not fn.isFunc():
+            fn = obj_.value.get(ValueString(self.member))
+            if fn is None or not fn.isFunc():
                 raise CklRuntimeError(
                     ValueString("ERROR"),
                     f"{self.member} is not a function",
